@@ -28,6 +28,8 @@ import Cello.HeapMid
 import CelloGen.GcMid
 import CelloProofs.Lemmas.MarkMid
 import CelloProofs.Lemmas.MarkDeep
+import Cello.HeapWalk
+import CelloProofs.Lemmas.MarkWalk
 
 namespace Cello.Heap
 
@@ -1933,3 +1935,114 @@ example : DeepSafe (deepEnv Shape.array) ((DMach.initCap [[5000, 5064]] (List.re
   C01_array_push_deep_safe _ _ 0 _ rfl
 
 end Cello.Heap.Mid
+
+/-! ### extension round: the loops of the Mark instances, the pointer bounds of `GC_Set`, the two loops of `GC_Mark_Stack`, as terms extracted from
+    the source (CelloGen/GcWalk.lean) and interpreted by Cello/HeapWalk.lean -/
+namespace Cello.Heap
+open CelloGen.GcWalk
+
+/-- **`Array_Mark` hands every element of the block to the callback, each once, in order, and nothing else** — for every Array content.  The loop
+    header is the one extracted from src/Array.c on this run; a header that starts at 1, stops at `nitems-1`, steps by 2 or runs to `<= nitems`
+    makes `CountLoop.Complete` false and this theorem fail. -/
+theorem C01_array_mark_presents_all :
+    ∃ L, arrayMarkLoop = some L ∧ ∀ es : List Obj, Walk.arrayPresented L es = es :=
+  ⟨_, rfl, fun es => Walk.arrayPresented_all _ (by decide) rfl es⟩
+
+/-- **`Table_Mark` hands key and value of EVERY occupied slot to the callback** — the first and the last slot included, for every slot array —
+    and tests the hash word before it touches a slot. -/
+theorem C01_table_mark_presents_all :
+    ∃ L, tableMarkLoop = some L ∧ L.guard = true ∧ ∀ slots : List Walk.Slot, Walk.tablePresented L slots = Walk.tableElems slots :=
+  ⟨_, rfl, rfl, fun s => Walk.tablePresented_all _ (by decide) rfl s⟩
+
+/-- the class of seeded change c01_n spelled out: an entry in the LAST slot of a table of any size is presented -/
+theorem C01_table_mark_last_slot :
+    ∃ L, tableMarkLoop = some L ∧ ∀ (slots : List Walk.Slot) (k v : Obj),
+      Walk.tablePresented L (slots ++ [some (k, v)]) = Walk.tableElems slots ++ [k, v] := by
+  obtain ⟨L, hL, _, h⟩ := C01_table_mark_presents_all
+  refine ⟨L, hL, fun slots k v => ?_⟩
+  rw [h]; simp [Walk.tableElems]
+
+/-- **`List_Mark` visits every cell from `head` to the cell whose link is NULL**, **`Tuple_Mark` every item in front of the Terminal** (and returns
+    on `items is NULL` first) -/
+theorem C01_list_mark_presents_all : ∃ L, listMarkLoop = some L ∧ ∀ n, L.visits n = List.range n :=
+  ⟨_, rfl, fun n => PtrLoop.visits_complete _ (by decide) n⟩
+
+theorem C01_tuple_mark_presents_all : ∃ L, tupleMarkLoop = some L ∧ L.nullGuard = true ∧ ∀ n, L.visits n = List.range n :=
+  ⟨_, rfl, rfl, fun n => SentLoop.visits_complete _ (by decide) n⟩
+
+/-- what the abstract model takes a container to present (`fields` of `Obj.cont`: ALL elements; keys and values of ALL entries) is what the
+    extracted loops present on the concrete block / slot array: the layer the `C01_mark_complete` family quantifies over loses nothing -/
+theorem C01_cont_fields_are_loop_walks :
+    (∀ L, arrayMarkLoop = some L → ∀ es, fieldsL Cfg.current (Walk.arrayPresented L es) = fields Cfg.current (.cont "Array" es)) ∧
+    (∀ L, tableMarkLoop = some L → ∀ slots, fieldsL Cfg.current (Walk.tablePresented L slots) = fields Cfg.current (.cont "Table" (Walk.tableElems slots))) := by
+  constructor
+  · intro L hL es
+    obtain ⟨L', hL', h⟩ := C01_array_mark_presents_all
+    rw [hL] at hL'; cases hL'
+    rw [h, fields, if_neg (by decide), if_pos (by decide)]
+  · intro L hL slots
+    obtain ⟨L', hL', _, h⟩ := C01_table_mark_presents_all
+    rw [hL] at hL'; cases hL'
+    rw [h, fields, if_neg (by decide), if_pos (by decide)]
+
+/-- planted variants are refuted on concrete blocks: the exclusive bound `nslots - 1` loses the last slot (and wraps on an empty table), a start at 1
+    loses the first, `<=` leaves the block, a step of 2 loses every other position; `while (*List_Next(l, item))` loses the last cell -/
+theorem C01_mark_loop_variants_refuted :
+    ({ start := 0, cmp := .lt, sub := 1, step := 1, guard := true, presents := [.key, .val] } : CountLoop).visits 5 = [0, 1, 2, 3] ∧
+    ({ start := 1, cmp := .lt, sub := 0, step := 1, guard := false, presents := [.item] } : CountLoop).visits 3 = [1, 2] ∧
+    ({ start := 0, cmp := .le, sub := 0, step := 1, guard := false, presents := [.item] } : CountLoop).visits 3 = [0, 1, 2, 3] ∧
+    ({ start := 0, cmp := .lt, sub := 0, step := 2, guard := false, presents := [.item] } : CountLoop).visits 4 = [0, 2] ∧
+    ({ start := 0, cmp := .le, sub := 1, step := 1, guard := false, presents := [.item] } : CountLoop).visits 0 = [0, 1] ∧
+    ({ fromHead := true, cond := .next, advNext := true } : PtrLoop).visits 3 = [0, 1] ∧
+    ({ start := 1, nullGuard := true, step := 1 } : SentLoop).visits 3 = [1, 2] := by decide
+
+example : ∃ L, tableMarkLoop = some L ∧ L.visits 5 = [0, 1, 2, 3, 4] := ⟨_, rfl, by decide⟩
+example : ∃ L, listMarkLoop = some L ∧ L.visits 3 = [0, 1, 2] ∧ L.visits 0 = [] := ⟨_, rfl, by decide, by decide⟩
+
+/-- **The pointer bounds `GC_Mark_Item` filters with contain every registered address**: the two conditional expressions of `GC_Set` (their
+    comparison operators extracted) compute `max` / `min` of the old bound and the new pointer — `Heap.register` is that step —, they and the
+    registration stand in front of the threshold collection, `GC_New` starts from the empty interval, and no other statement of GC.c writes them. -/
+theorem C01_gc_set_bounds :
+    gcSetBoundsBeforeCollect = true ∧ gcNewBoundsInit = (true, true) ∧ gcBoundWrites = 4 ∧
+    (∀ key cur, Walk.boundStep gcSetMaxOp key cur = max cur key) ∧ (∀ key cur, Walk.boundStep gcSetMinOp key cur = min cur key) ∧
+    (∀ (h : Heap) a e, (h.lookup a).isSome = false →
+      (h.register a e).maxptr = Walk.boundStep gcSetMaxOp a h.maxptr ∧ (h.register a e).minptr = Walk.boundStep gcSetMinOp a h.minptr) := by
+  refine ⟨rfl, rfl, rfl, Walk.boundStep_max, Walk.boundStep_min, fun h a e hn => ?_⟩
+  have e1 : gcSetMaxOp = ">" := rfl
+  have e2 : gcSetMinOp = "<" := rfl
+  rw [e1, e2, Walk.boundStep_max, Walk.boundStep_min]
+  unfold Heap.register
+  rw [if_neg (by simp [hn])]
+  exact ⟨rfl, rfl⟩
+
+/-- a `GC_Set` that kept the smaller pointer as `maxptr` is refuted: the second, higher object falls outside the interval -/
+theorem C01_gc_set_bounds_variant_refuted : Walk.boundStep "<" 4096 1024 = 1024 ∧ Walk.boundStep ">" 4096 1024 = 4096 := by decide
+
+/-- **`GC_Mark_Stack` hands every word between `&stk` and `gc->bottom`, both ends included, to `GC_Mark_Item`**, whichever way the stack grows
+    (addresses in words; the two loops are the ones extracted from the source) -/
+theorem C01_stack_scan_covers :
+    stackScanProlog = true ∧
+    ∀ top bot w, top ≠ bot → min top bot ≤ w → w ≤ max top bot → w ∈ Walk.stackVisits stackScanLoops top bot := by
+  refine ⟨rfl, fun top bot w hne hlo hhi => ?_⟩
+  have e : stackScanLoops = [("<", "top", ">=", "bot", "-"), (">", "top", "<=", "bot", "+")] := rfl
+  rw [e]
+  simp only [Walk.stackVisits, List.flatMap_cons, List.flatMap_nil, List.append_nil, List.mem_append]
+  by_cases hb : bot < top
+  · left
+    have : Walk.scanLoop ("<", "top", ">=", "bot", "-") top bot = (List.range (top - bot + 1)).map (fun j => top - j) := by
+      simp [Walk.scanLoop, hb]
+    rw [this, List.mem_map]
+    exact ⟨top - w, by rw [List.mem_range]; omega, by omega⟩
+  · right
+    have hb' : bot > top := by omega
+    have : Walk.scanLoop (">", "top", "<=", "bot", "+") top bot = (List.range (bot - top + 1)).map (fun j => top + j) := by
+      simp [Walk.scanLoop, hb']
+    rw [this, List.mem_map]
+    exact ⟨w - top, by rw [List.mem_range]; omega, by omega⟩
+
+/-- the exclusive comparisons lose the word at `gc->bottom` -/
+theorem C01_stack_scan_exclusive_refuted :
+    10 ∉ Walk.stackVisits [("<", "top", ">", "bot", "-"), (">", "top", "<", "bot", "+")] 14 10 ∧
+    10 ∈ Walk.stackVisits stackScanLoops 14 10 ∧ 14 ∈ Walk.stackVisits stackScanLoops 10 14 := by decide
+
+end Cello.Heap
